@@ -555,6 +555,173 @@ func pingHandover(c *run.Ctx, variant string) {
 	c.Sample(map[string]any{"scenario": "ping slot hand-over", "variant": variant, "first": fmt.Sprint(first.Err), "second": fmt.Sprint(second.Err)})
 }
 
+// c11PendingConnect issues requests while a reconnect attempt stays pending
+// for several periods of the client's poll, fires some of their quits while it
+// is still pending, and then lets the attempt fail with nothing following it.
+func c11PendingConnect(c *run.Ctx) {
+	ep := newEpisode(c)
+	w := ep.W
+	defer w.Shutdown()
+	ep.F.Off = true
+	failKind := c.Rng.Intn(3)
+	if err := ep.Init(); err != nil {
+		c.Violate("init-failed", err.Error(), nil)
+		return
+	}
+	w.Mu.Lock()
+	w.DialPlan = func(w *sim.World, n int) sim.DialDecision {
+		switch {
+		case n == 2 && failKind == 0:
+			return sim.DialDecision{Gate: "attempt", Err: errors.New("sim: host unreachable")}
+		case n == 2:
+			return sim.DialDecision{Gate: "attempt"}
+		}
+		return sim.DialDecision{}
+	}
+	w.Broker.Connack = func(b *sim.Broker, cn *sim.Conn, p *wire.Packet) []byte {
+		if cn.Idx >= 2 {
+			if failKind == 1 {
+				return wire.Connack(false, byte(1+w.Rng.Intn(5)))
+			}
+			cn.EndInboundLocked(-1, io.EOF)
+			return nil
+		}
+		return wire.Connack(b.State.Session && !p.Connect.CleanSession, 0)
+	}
+	w.Mu.Unlock()
+	d := ep.D
+	d.Manual = true
+	d.StartReader()
+	detail := func() map[string]any {
+		return map[string]any{"attempt_fails_by": []string{"dial error", "refusal", "missing CONNACK"}[failKind], "trace_tail": w.TraceTail(traceN(c))}
+	}
+	d.GrantWhenPaused(sim.StepTimeout)
+	if !w.WaitUntil(sim.StepTimeout, func() bool { return w.PointCountLocked("connect.resent") > 0 && w.ReaderQuietLocked() }) {
+		c.Inconclusive("connect slow")
+		c.Spoiled()
+		return
+	}
+	// the connection gets lost; the next invocation starts the reconnect, which stays pending
+	w.CurConn().EndInbound(-1, io.EOF)
+	if !w.WaitUntil(sim.StepTimeout, func() bool { return d.ReadCount() >= 1 }) {
+		c.Inconclusive("loss not reported")
+		c.Spoiled()
+		return
+	}
+	d.GrantWhenPaused(sim.StepTimeout)
+	if !w.WaitGateWaiting("attempt", 1, sim.StepTimeout) {
+		c.Inconclusive("reconnect attempt not reached: " + strings.Join(w.TraceTail(12), " | "))
+		c.Spoiled()
+		return
+	}
+	var reqs []*c11Req
+	n := 2 + c.Rng.Intn(7)
+	for i := 0; i < n; i++ {
+		r := &c11Req{Kind: []string{"subscribe", "unsubscribe", "ping", "publish"}[c.Rng.Intn(4)]}
+		var quit <-chan struct{}
+		if c.Rng.Intn(2) == 0 {
+			r.Quit = make(chan struct{})
+			quit = r.Quit
+		}
+		f := fmt.Sprintf("pc/%d", i)
+		switch r.Kind {
+		case "subscribe":
+			r.Call = d.Go("Subscribe", func() error { return d.C.Subscribe(quit, f) })
+		case "unsubscribe":
+			r.Call = d.Go("Unsubscribe", func() error { return d.C.Unsubscribe(quit, f) })
+		case "ping":
+			r.Call = d.Go("Ping", func() error { return d.C.Ping(quit) })
+		default:
+			r.Call = d.Go("Publish", func() error { return d.C.Publish(quit, []byte("x"), f) })
+		}
+		reqs = append(reqs, r)
+	}
+	// several periods of the client's 20 ms poll go by (this holds nothing against a clock:
+	// it only lets whatever timers the requests use fire more than once)
+	time.Sleep(time.Duration(45+c.Rng.Intn(40)) * time.Millisecond)
+	early := 0
+	for _, r := range reqs {
+		if r.Call.Returned() {
+			early++
+			c.Violate("request-did-not-await-connect", fmt.Sprintf("%s issued while the reconnect was pending returned %v before the attempt was decided", r.Call.Method, r.Call.Err), detail())
+		}
+	}
+	await := func(r *c11Req, sig, what string) bool {
+		select {
+		case <-r.Call.Done:
+			return true
+		case <-time.After(sim.StepTimeout):
+		}
+		wedged, report := w.Diagnose(1500 * time.Millisecond)
+		if r.Call.Returned() {
+			return true
+		}
+		if wedged {
+			dt := detail()
+			dt["report"] = report
+			c.Violate(sig, fmt.Sprintf("%s %s", r.Call.Method, what), dt)
+		} else {
+			c.Inconclusive("request slow: " + what)
+		}
+		c.Spoiled()
+		return false
+	}
+	// quits fired while the attempt is still pending
+	fired := 0
+	for i, r := range reqs {
+		if r.Quit != nil && i%2 == 0 {
+			close(r.Quit)
+			r.QuitAt = w.Now()
+			fired++
+			if !await(r, "quit-ignored-while-connect-pending", "does not return although its quit fired while the connect attempt is pending") {
+				w.Open("attempt")
+				d.CloseAndWait()
+				return
+			}
+			if !errors.Is(r.Call.Err, mqtt.ErrCanceled) {
+				c.Violate("quit-result-while-connect-pending", fmt.Sprintf("%s with its quit fired before anything was written returned %v, want ErrCanceled", r.Call.Method, r.Call.Err), detail())
+			}
+		}
+	}
+	// the attempt fails, and nothing follows it
+	w.Open("attempt")
+	if !w.WaitUntil(sim.StepTimeout, func() bool { return d.ReadCount() >= 2 }) {
+		c.Inconclusive("failed attempt not reported")
+		c.Spoiled()
+		return
+	}
+	for _, r := range reqs {
+		if r.Call.Returned() {
+			continue
+		}
+		if !await(r, "request-never-returns-after-failed-connect", "issued while the reconnect was pending still waits after that attempt failed and no other follows") {
+			d.CloseAndWait()
+			return
+		}
+		if !errors.Is(r.Call.Err, mqtt.ErrDown) {
+			c.Violate("request-result-after-failed-connect", fmt.Sprintf("%s issued while the reconnect was pending returned %v after the attempt failed, want ErrDown", r.Call.Method, r.Call.Err), detail())
+		}
+	}
+	// nothing of these requests reached a connection
+	w.Mu.Lock()
+	for _, cn := range w.Conns {
+		pk, _, _ := wire.ParseStream(cn.Out, true)
+		for _, p := range pk {
+			if p.Type != wire.CONNECT {
+				c.Violate("bytes-written-without-connection", fmt.Sprintf("conn %d carries %s although no request was issued while a connection was up", cn.Idx, p), nil)
+			}
+		}
+	}
+	w.Mu.Unlock()
+	if !d.CloseAndWait() {
+		c.Spoiled()
+	}
+	c.Count("requests_during_pending_connect", n)
+	c.Count("quits_fired_during_pending_connect", fired)
+	c.Trigger(fmt.Sprintf("pending-connect|fail=%d|n=%d|quits=%d", failKind, min(n, 4), min(fired, 2)))
+	c.Sample(map[string]any{"scenario": "requests during a pending reconnect that fails", "requests": n, "quits_fired_while_pending": fired, "attempt_fails_by": []string{"dial error", "refusal", "missing CONNACK"}[failKind]})
+}
+
 func init() {
 	steps := []string{"answer-some", "answer-some", "duplicate", "unsolicited", "break", "quit", "more", "settle", "close", "bad-response"}
 	run.Register(&run.Prop{
@@ -567,11 +734,15 @@ func init() {
 			return 1200
 		},
 		ChunkSize:   40,
-		Rule:        "each case issues 2-40 (thorough: up to 512) concurrent Subscribe/SubscribeLimit*/Unsubscribe calls with unique filters (so request <-> packet identifier is read off the wire) plus 0-4 Ping calls, a quarter with a quit channel; the reference broker withholds every response and a PRNG script of 3-10 steps then answers subsets in random order, duplicates a response, sends unsolicited SUBACK/UNSUBACK/PINGRESP of the right spaces, fails random filter subsets with 0x80, sends a SUBACK with an illegal code or a surplus code for a pending request, breaks the connection, fires quits, issues more requests, calls Close; random yields/sleeps at the Ping hook points; finally everything still answerable is answered. Every 10th case drives the Ping slot hand-over window deterministically through the hook points ping.writefail / ping.quit (park the releasing Ping, let the read routine clear the slot, let a second Ping install, continue). Oracle per call, by logical-time intervals: it returns; nil only with a success response for ITS identifier delivered before the return; SubscribeError with exactly the filters its SUBACK failed, in order; ErrSubmit/ErrBreak/ErrDown only with a connection lost (or Close) before the return; ErrCanceled/ErrAbandoned only after its quit fired; ErrClosed only after Close; ErrMax for Ping only with another Ping in flight, never for the others below the slot limit; successful Pings <= PINGRESPs delivered. Non-trivial: >= 2 requests racing responses or a loss; distinct by request counts and script.",
+		Rule:        "each case issues 2-40 (thorough: up to 512) concurrent Subscribe/SubscribeLimit*/Unsubscribe calls with unique filters (so request <-> packet identifier is read off the wire) plus 0-4 Ping calls, a quarter with a quit channel; the reference broker withholds every response and a PRNG script of 3-10 steps then answers subsets in random order, duplicates a response, sends unsolicited SUBACK/UNSUBACK/PINGRESP of the right spaces, fails random filter subsets with 0x80, sends a SUBACK with an illegal code or a surplus code for a pending request, breaks the connection, fires quits, issues more requests, calls Close; random yields/sleeps at the Ping hook points; finally everything still answerable is answered. Every 10th case drives the Ping slot hand-over window deterministically through the hook points ping.writefail / ping.quit (park the releasing Ping, let the read routine clear the slot, let a second Ping install, continue). Every 10th case issues 2-8 requests (all kinds, half with a quit) while a reconnect attempt is held pending for 45-85 ms, fires some quits while it is pending (ErrCanceled), then lets the attempt fail by dial error, refusal or missing CONNACK with no further attempt: every request returns ErrDown. Oracle per call, by logical-time intervals: it returns; nil only with a success response for ITS identifier delivered before the return; SubscribeError with exactly the filters its SUBACK failed, in order; ErrSubmit/ErrBreak/ErrDown only with a connection lost (or Close) before the return; ErrCanceled/ErrAbandoned only after its quit fired; ErrClosed only after Close; ErrMax for Ping only with another Ping in flight, never for the others below the slot limit; successful Pings <= PINGRESPs delivered. Non-trivial: >= 2 requests racing responses or a loss; distinct by request counts and script.",
 		Assumptions: []string{"overlapping calls are judged by interval: a result is accepted when legal for some order of the critical events inside [call, return]", "porcupine is not used here: requests share no state beyond the slot count, which is checked by interval overlap"},
 		Run: func(c *run.Ctx) {
 			if c.Case%10 == 9 {
 				pingHandover(c, []string{"writefail", "quit"}[c.Case/10%2])
+				return
+			}
+			if c.Case%10 == 8 {
+				c11PendingConnect(c)
 				return
 			}
 			nReq := 2 + c.Rng.Intn(39)
